@@ -362,7 +362,7 @@ class Check:
                               ("-" + "-".join(features) if features else ""))
         t0 = time.time()
         try:
-            s = drv(binp, name, self.seed, self.tier, outdir, shards or 1, extra=extra)
+            s = drv(binp, name, self.seed, self.tier, outdir, shards or maxpar, extra=extra)
         except HarnessCrash as hc:
             os.makedirs(os.path.join(ROOT, "replays"), exist_ok=True)
             rp = os.path.join(ROOT, "replays", "%s-crash-%s.json" % (self.prop, re.sub(r'[^A-Za-z0-9_.-]', '_', hc.case)[:60]))
@@ -374,12 +374,30 @@ class Check:
             print("  case=%s rules=process_died_rc_%s" % (hc.case, hc.rc), flush=True)
             self.violations.append({"case": hc.case, "rules": ["process_died"], "replay": rp})
             return None
-        # re-shard by volume: one shard per ~6 MB, at most maxpar
-        total = sum(s["bytes"])
-        want = max(1, min(maxpar, total // 6_000_000 + 1))
-        if shards is None and want > 1:
-            shutil.rmtree(outdir, ignore_errors=True)
-            s = drv(binp, name, self.seed, self.tier, outdir, want, extra=extra)
+        # merge shards by volume: one TLC process per ~6 MB of trace, at most maxpar
+        if shards is None:
+            files = sorted([(sz, pth) for sz, pth in zip(s["bytes"], s["shards"]) if sz > 0], reverse=True)
+            total = sum(sz for sz, _ in files)
+            want = max(1, min(maxpar, total // 6_000_000 + 1))
+            groups = [[0, []] for _ in range(want)]
+            for sz, pth in files:
+                g = min(groups, key=lambda x: x[0])
+                g[0] += sz
+                g[1].append(pth)
+            merged = []
+            for gi, (gsz, pths) in enumerate(groups):
+                if not pths:
+                    continue
+                mp = os.path.join(outdir, "merged.%d.ndjson" % gi)
+                with open(mp, "wb") as out:
+                    for pth in pths:
+                        with open(pth, "rb") as f:
+                            shutil.copyfileobj(f, out)
+                merged.append((gsz, mp))
+            for _, pth in files:
+                os.remove(pth)
+            s["shards"] = [m[1] for m in merged] or s["shards"][:1]
+            s["bytes"] = [m[0] for m in merged] or s["bytes"][:1]
         log("drv %s: %d cases, %d events, %.1f MB, %d shard(s), %.1fs" % (
             name, s["cases"], s["events"], sum(s["bytes"]) / 1e6, len(s["shards"]), time.time() - t0))
         t1 = time.time()
@@ -468,7 +486,10 @@ class Check:
             "acceptor_productions_exercised": seen,
             "scenarios": [{"name": e["name"], "profile": e["profile"], "features": e["features"],
                            "cases": e["summary"]["cases"], "events": e["summary"]["events"]} for e in self.scn],
-            "evaluations": cases, "distinct_nontrivial": cases,
+            "evaluations": cases + sum(e["summary"].get("bulk_run", 0) for e in self.scn),
+            "distinct_nontrivial": cases,
+            "bulk_explored_cases": sum(e["summary"].get("bulk_run", 0) for e in self.scn),
+            "bulk_cases_written_for_tlc": sum(e["summary"].get("bulk_kept", 0) for e in self.scn),
             "rule": rule,
             "known_findings_hit": self.known_hits,
             "notes": self.notes[:50],
